@@ -268,6 +268,8 @@ func streamReplay(c *ctx, f []string) {
 		return
 	}
 	switch f[2] {
+	case "piter":
+		pageIterReplay(c, f)
 	case "0", "1", "2":
 		unwrapDoc(c, int(f[2][0]-'0'), f[3] == "1", doc, "replay")
 	default:
